@@ -5,6 +5,8 @@ import os
 
 VERIF = os.path.dirname(os.path.dirname(os.path.abspath(__file__)))
 
+TR = 'TLC exhaustive model check of spec/Transport.tla (calls x guard x sockets x clock x network) incl. expected-to-fail design switches; TLC -simulate behaviours exported as scripts and replayed on real loopback sockets (Rig L); TLC trace validation (Trace_Transport, inferred internal steps, depth-first queue) of the recorded events'
+
 CHECKS = {
     "C01": dict(
         category="model_checking",
@@ -23,6 +25,14 @@ CHECKS = {
         note="Trusted: spec/Messages.tla + Api.tla as protocol; TLC; result projection by field copy. TZ=UTC. Documented don't-cares are listed in the evidence assumptions.",
         design="4/C02",
     ),
+    "C03": dict(
+        category="model_checking",
+        technique=TR,
+        text="Invariants AcceptOnlyValid, BcastKeepsWaiting, FailOnlyOnBad, SetAddrNeverReads hold on the complete state space of three bounded configurations (2-3 calls, all datagram classes, strays, peer faults). "
+             "Behaviours of the same specification (controller answers of 1-2 datagrams from 8 classes, strays injected into the call's source port, all three paths) are replayed against the unmodified driver on loopback and every recorded scenario must be a behaviour of the specification: accepted / skipped / refused exactly as the model's Recv says.",
+        note="Trusted: TLC; the farm's concretisation of datagram classes; timing on a 50 ms tick with a re-run rule (a rejection counts only if reproduced in isolation at 150 ms tick). Operation coverage on real sockets is representative (GetCardByIndex, GetStatus incl. 0x19, SetAddress); per-operation decoding is C02's.",
+        design="4/C03",
+    ),
     "C04": dict(
         category="model_checking",
         technique="TLC trace validation (Trace_Codec / Trace_Api conjuncts NoPanic, RenderOK) of recovered-panic outcome records from systematic byte-string and argument enumeration through every decode entry point, operation and the event handler",
@@ -39,6 +49,14 @@ CHECKS = {
         note="Trusted: spec tables; TLC; reflection-based value generation/projection in the harness; existence of a civil time in a zone is taken from Go's time package.",
         design="4/C05",
     ),
+    "C06": dict(
+        category="model_checking",
+        technique="TLC trace validation (Trace_Api: route = Api!Route(op,cfg,serial), one transport call) over 32 operations x 270 client configurations on the scripted transport; TLC trace validation (Trace_Transport TAsk: arrival transport/endpoint, source = bind address, exactly once, silent decoys) of real-socket scenarios",
+        text="Api!Route is the routing rule of the property (usable address => direct, tcp only when configured tcp, otherwise broadcast to the configured or default broadcast address; discovery always broadcasts). Every recorded call under every configuration of the product must invoke the transport once with exactly that method and endpoint; "
+             "on real sockets the farm records where each request arrived, from which source address/port, how often, and that decoy endpoints heard nothing.",
+        note="Trusted: TLC; the default broadcast address 255.255.255.255:60000 is only observable at the driver boundary (sealed network).",
+        design="4/C06",
+    ),
     "C07": dict(
         category="model_checking",
         technique="TLC trace validation (Trace_Api: nothing sent <=> Api!Reject(op,args)) of API calls recorded on the scripted transport, incl. the complete 2^32 card-number space as accept intervals (thorough)",
@@ -46,6 +64,22 @@ CHECKS = {
              "Boundary-exhaustive argument sets per rule (card numbers around every facility-code boundary x format lists, PINs, AddrPort variants, net.IP shapes, doors 0..255, HH:mm pairs); thorough tier decides the Wiegand-26 accept set over all 2^32 numbers.",
         note="Trusted: TLC; the scripted transport as observation point for 'nothing on the network'; argument projection by field copy.",
         design="4/C07",
+    ),
+    "C08": dict(
+        category="model_checking",
+        technique=TR + "; happens-before model of Broadcast() (spec/Discovery.tla, vector clocks) with NoRace invariant; Go race detector as observer of memory races on the same scripts + discovery + listener shutdown",
+        text="NoCrossedReplyStrict, PortExclusive, TimelyAnswerAccepted hold over all interleavings of 3 calls to one controller on a shared fixed port (delays < T); XF_NoGuard, XF_DeadlineBeforeLock and XF_DiscoveryUnsync each yield the modelled defect's counterexample. "
+             "Simulated behaviours with 3-4 concurrent calls (same controller, mixed paths, fixed and ephemeral port) are replayed on real sockets with request tags echoed in replies so that a crossed reply or a refused timely answer is a rejected trace; the same scripts run under -race.",
+        note="Whether a memory race happened is observed by the Go race detector, not by the specification (which contributes the synchronisation design and arbitrates the trace). Timing as C03.",
+        design="4/C08",
+    ),
+    "C09": dict(
+        category="model_checking",
+        technique=TR + "; liveness (Termination) under weak fairness; process-level fd / goroutine counts as logged state",
+        text="BoundedReturn, NoEarlyGiveUp, DeadlineFromAsk, Released are invariants of the model; Termination holds under weak fairness; XF_RearmPerRead / XF_NoCloseOnError / XF_DeadlineBeforeLock are refuted. "
+             "Replayed behaviours cover silence, late replies, refused and reset TCP, ICMP-refused UDP, accept-and-stall, and floods of irrelevant datagrams until the deadline (alone and with the genuine reply at T-1); time-outs must fall in tick T after being asked, timely replies must be accepted, and each child process must hold no more sockets or goroutines afterwards.",
+        note="Trusted: /proc/self/fd and runtime.NumGoroutine; tick timing with half a tick of slack on time-outs; re-run rule.",
+        design="4/C09",
     ),
     "C12": dict(
         category="model_checking",
